@@ -34,6 +34,35 @@ NONDET_REVIEWED = {
 }
 
 
+ELEMENTWISE = {"map", "filter", "cloned", "copied", "filter_map"}
+REDUCERS = {"any", "all", "count", "min", "max"}
+WRITES = {"push", "insert", "extend", "push_str", "remove", "append", "entry", "set"}
+
+
+def _order_free(f, n):
+    """the iterator produced at n flows only through element-wise adapters into an order-insensitive
+    reducer, and none of the closures involved writes anything"""
+    cur = n
+    for _ in range(8):
+        par = f.parent(cur)
+        while par is not None and par.get("k") in ("DropTemps", "Use", "AddrOf"):
+            cur, par = par, f.parent(par)
+        if par is None or par.get("k") != "MethodCall" or par["recv"] is not cur:
+            return False
+        for a in par["args"]:
+            for x in hir.walk(a):
+                if x.get("k") in ("Assign", "AssignOp"):
+                    return False
+                if hir.is_call(x) and (hir.callee_name(x) or x.get("method")) in WRITES:
+                    return False
+        if par["method"] in REDUCERS:
+            return True
+        if par["method"] not in ELEMENTWISE:
+            return False
+        cur = par
+    return False
+
+
 def _coll_base(ty):
     t = core_type(ty)
     for w in ("std::sync::Arc<", "std::rc::Rc<", "triomphe::Arc<"):
@@ -221,7 +250,10 @@ def rule_nondet(check, reach):
     for key, nodes in sorted(found.items()):
         why = NONDET_REVIEWED.get(key)
         k = "%s/%s/%s/%s" % (R, key[0], key[1], key[2])
-        if why:
+        fobj = [f for f in prog.user_fns if T.short(f) == key[0]]
+        if not why and fobj and all(_order_free(fobj[0], n) for n in nodes):
+            check.ok(R, k, hir.loc(nodes[0]), "iteration consumed by an order-insensitive reduction (any/all/count/min/max over element-wise adapters, closures without writes)")
+        elif why:
             check.ok(R, k, hir.loc(nodes[0]), "reviewed: %s" % why)
         else:
             check.bad(R, k, hir.loc(nodes[0]), "unreviewed nondeterminism source: %s.%s over/into %s" % key)
